@@ -438,4 +438,26 @@ example : encodeAll windows1252.codec (escapeChars bodyTable ['<', 'é', '>', '&
     = [38, 108, 116, 59, 233, 38, 103, 116, 59, 38, 97, 109, 112, 59] := by decide +kernel
 example : encodeAll toy2 [Char.ofNat 0x4E01, '-', '-', '>'] = [0x81, 0x41, 45, 45, 62] := by decide +kernel
 
+/-! ### What `StructSafe` does NOT give: finding F22
+
+`StructSafe` keeps non-ASCII scalars away from the structural bytes, not from the ASCII LETTERS: in
+Shift_JIS / Big5 / GBK a trail byte can be `A`..`Z` or `a`..`z`. `Attributes::set_attribute` compares names
+ASCII-case-insensitively on the ENCODED bytes (`eq_case_insensitive`, base/mod.rs:22), so such a name
+does not match itself. On the model, with the Shift_JIS encoding of U+30A2 (0x83 0x41): -/
+
+/-- **C08_F22_counterexample.** `set_attribute("ア","1"); set_attribute("ア","2")` on `<a>` in Shift_JIS:
+the second call evaluates a failing `debug_assert!` (panic in debug builds) and, in release builds,
+does not replace: the tag ends up with the attribute twice (a browser keeps the first value). In UTF-8
+this cannot happen (`C08_attr_name_lowercased`). Observed on the real code by lane `esc`
+(`attrseq sjis e382a2 8341 - 31 32`, oracle tag `F22-multibyte-name-ascii-case`). -/
+theorem C08_F22_counterexample :
+    let c := Model.Esc.Codec.given [0xE3, 0x82, 0xA2] [0x83, 0x41]
+    let tag : StartTag := ⟨[97], [], false, some [60, 97, 62]⟩
+    let t1 := (tag.setAttribute c [0xE3, 0x82, 0xA2] [49]).1
+    let t2 := (t1.setAttribute c [0xE3, 0x82, 0xA2] [50]).1
+    t1.setAttributeDebugAssertFails c [0xE3, 0x82, 0xA2] = true ∧
+    t2.attributes.map (fun a => (a.name, a.value)) = [([0x83, 0x41], [49]), ([0x83, 0x41], [50])] ∧
+    t2.serialize = some [60, 97, 32, 0x83, 0x41, 61, 34, 49, 34, 32, 0x83, 0x41, 61, 34, 50, 34, 62] := by
+  decide
+
 end LolHtml.Thm.C08Codec
